@@ -264,8 +264,9 @@ def _clone(v: Any, memo: dict[int, Any]) -> Any:
         if isinstance(v, SDict):
             n = SDict(None, v.fresh)
             n.open, n.tag = v.open, v.tag
-            if hasattr(v, "sym_get"):
-                n.sym_get = v.sym_get
+            for k, x in v.__dict__.items():
+                if k not in ("entries", "fresh", "open", "tag"):
+                    n.__dict__[k] = x
             memo[id(v)] = n
             n.entries = {k: _clone(x, memo) for k, x in v.entries.items()}
             return n
